@@ -71,6 +71,31 @@ fn register_waiting(pool: &mut PoolImpl, child: BlockId, parent: BlockId) {
     p_add_block(pool, child, parent);
 }
 
+/// Has the slot state of `slot` been told that the parent of block `tag` is certified?  Under Kani the
+/// call is recorded by a stub (`kani_c06_cut::cut`), natively the real call leaves its mark in the slot state.
+fn told(pool: &mut PoolImpl, slot: Slot, tag: u8) -> bool {
+    #[cfg(kani)]
+    {
+        let _ = pool;
+        super::slot_state::kani_c06_cut::cut::told(slot.inner(), tag) == 1
+    }
+    #[cfg(not(kani))]
+    {
+        parent_certified(pool.slot_state(slot), &block_hash(tag))
+    }
+}
+fn not_told(pool: &mut PoolImpl, slot: Slot, tag: u8) -> bool {
+    #[cfg(kani)]
+    {
+        let _ = pool;
+        super::slot_state::kani_c06_cut::cut::told(slot.inner(), tag) == 0
+    }
+    #[cfg(not(kani))]
+    {
+        !parent_certified(pool.slot_state(slot), &block_hash(tag))
+    }
+}
+
 /// The parent's certificate arrives last: one real `add_cert` -> `add_valid_cert`.
 fn wake_body<const KIND: u8, const TWO: bool>() {
     // validator 0 holds 90 % (natively its single signature makes every certificate valid); the node is validator 1
@@ -84,13 +109,13 @@ fn wake_body<const KIND: u8, const TWO: bool>() {
     if TWO {
         register_waiting(&mut pool, (sb, hb.clone()), (sp, hp.clone()));
     }
-    vcheck!(!parent_certified(pool.slot_state(sa), &ha), "parent reported certified before any certificate for it exists");
+    vcheck!(not_told(&mut pool, sa, 2), "parent reported certified before any certificate for it exists");
     let cert = opaque(KIND, sp, hp.clone(), vals, &fx.sks[0]);
     let r = p_add_cert(&mut pool, validated_cert(&fx, cert));
     vcheck!(r == Ok(()), "a fresh certificate inside the window was refused");
-    vcheck!(parent_certified(pool.slot_state(sa), &ha), "a block whose parent is certified (notarization, notar-fallback or fast-finalization certificate held) was never told so: safe-to-notar cannot be raised when the parent's certificate arrives last");
+    vcheck!(told(&mut pool, sa, 2), "a block whose parent is certified (notarization, notar-fallback or fast-finalization certificate held) was never told so: safe-to-notar cannot be raised when the parent's certificate arrives last");
     if TWO {
-        vcheck!(parent_certified(pool.slot_state(sb), &hb), "a second block waiting for the same parent was never told that the parent is certified");
+        vcheck!(told(&mut pool, sb, 3), "a second block waiting for the same parent was never told that the parent is certified");
     }
     vcover!(true, "certificate delivered");
     std::mem::forget(pool);
@@ -116,9 +141,9 @@ fn block_body<const CERT: u8, const SECOND: bool>() {
     p_add_block(&mut pool, (sb, hb.clone()), (sp, hp.clone()));
     vcheck!(parent_known(pool.slot_state(sb), &hb), "registered block not known to its slot state");
     if CERT != 255 {
-        vcheck!(parent_certified(pool.slot_state(sb), &hb), "a block registered after its parent's certificate was never told that the parent is certified");
+        vcheck!(told(&mut pool, sb, 3), "a block registered after its parent's certificate was never told that the parent is certified");
     } else {
-        vcheck!(!parent_certified(pool.slot_state(sb), &hb), "parent reported certified before any certificate for it exists");
+        vcheck!(not_told(&mut pool, sb, 3), "parent reported certified before any certificate for it exists");
         vcheck!(pool.s2n_waiting_parent_cert.has(&(sp, hp.clone()), &(sb, hb.clone())), "a block whose parent is not yet certified is not waiting for the parent's certificate");
         if SECOND {
             vcheck!(pool.s2n_waiting_parent_cert.has(&(sp, hp.clone()), &(sa, ha.clone())), "a block waiting for its parent's certificate was dropped when another block with the same parent arrived: it is never told that the parent is certified");
@@ -166,6 +191,9 @@ pub(crate) mod cut {
         }
         std::mem::forget(event);
     }
+    pub(crate) fn send_parent_ready_events<I: IntoIterator<Item = (Slot, BlockId)>>(_this: &PoolImpl, parents: I) {
+        std::mem::forget(parents);
+    }
     pub(crate) fn send_repair(_this: &PoolImpl, block: BlockId) {
         std::mem::forget(block);
     }
@@ -187,7 +215,9 @@ macro_rules! stubs {
         #[cfg_attr(kani, kani::stub(crate::crypto::aggsig::SecretKey::sign, crate::consensus::kani_fix::sign_stub))]
         #[cfg_attr(kani, kani::stub(log::max_level, crate::consensus::pool::kani_c06_pool::log_off))]
         #[cfg_attr(kani, kani::stub(crate::consensus::pool::PoolImpl::send_votor_event, crate::consensus::pool::kani_c06_pool::cut::send_votor_event))]
+        #[cfg_attr(kani, kani::stub(crate::consensus::pool::slot_state::SlotState::notify_parent_certified, crate::consensus::pool::slot_state::kani_c06_cut::cut::notify_parent_certified))]
         #[cfg_attr(kani, kani::stub(crate::consensus::pool::PoolImpl::send_repair, crate::consensus::pool::kani_c06_pool::cut::send_repair))]
+        #[cfg_attr(kani, kani::stub(crate::consensus::pool::PoolImpl::send_parent_ready_events, crate::consensus::pool::kani_c06_pool::cut::send_parent_ready_events))]
         #[cfg_attr(kani, kani::stub(crate::consensus::pool::PoolImpl::handle_finalization, crate::consensus::pool::kani_c06_pool::cut::handle_finalization))]
         #[cfg_attr(kani, kani::stub(crate::consensus::pool::parent_ready_tracker::ParentReadyTracker::mark_notar_fallback, crate::consensus::pool::kani_c06_pool::cut::mark_notar_fallback))]
         #[cfg_attr(kani, kani::stub(crate::consensus::pool::parent_ready_tracker::ParentReadyTracker::handle_finalization, crate::consensus::pool::kani_c06_pool::cut::prt_handle_finalization))]
